@@ -75,6 +75,43 @@ Proof. exact run_nth. Qed.
 Theorem C18_run_is_spec : forall (cap : nat) (evs : list event), run cap evs = spec_attributions cap [] evs.
 Proof. exact run_is_spec. Qed.
 
+(* ---- carrier END events.  A history may say at any point that the k-th carrier has ended (HEnd k): before or after
+   a session of its ClientID is established, with other carriers of the same ClientID (same or different client_ip)
+   still open or not.  On this tree a carrier's end does not touch the map, so: every connection the listener hands
+   out carries the address it would carry in the history without the end events (and with them everything above:
+   C18_attribution, C18_conns_carry_session_address, C18_never_foreign apply to strip_ends hevs) ... *)
+Theorem C18_carrier_end_changes_nothing : forall (cap : nat) (hevs : list hevent),
+  run_conns_h cap hevs = run_conns cap (strip_ends hevs).
+Proof. exact run_conns_h_strip. Qed.
+
+(* ... the session established after a history with end events gets the address of the most recent carrier that
+   presented its ClientID among the last cap carriers STARTED, whichever of them have ended meanwhile ... *)
+Theorem C18_attribution_with_ends : forall (cap : nat) (pre : list hevent) (cid : N),
+  accept (hstate_after cap pre) cid = spec_attr cap (carriers_rev (strip_ends pre)) cid.
+Proof. intros. rewrite hstate_after_strip. apply attribution_spec. Qed.
+
+(* ... and two histories that differ only in where (and whether) carriers end give the same addresses *)
+Theorem C18_ends_anywhere : forall (cap : nat) (h1 h2 : list hevent),
+  strip_ends h1 = strip_ends h2 -> run_conns_h cap h1 = run_conns_h cap h2.
+Proof. exact ends_anywhere. Qed.
+
+Example C18_ends_anywhere_hyp_satisfiable :
+  let c := Carrier 7 (Parsed [0;0;0;0;0;0;0;0;0;0;255;255;4;4;4;4]%N) in
+  strip_ends [HEv c; HEv c; HEnd 0; HEv (Accept 7)] = strip_ends [HEv c; HEv c; HEv (Accept 7); HEnd 0; HEnd 1].
+Proof. reflexivity. Qed.
+
+(* the statement tells the code from the variant in which an ending carrier clears its ClientID's entry when the entry
+   still EQUALS the address it presented (a comparison of addresses, not of carriers): two carriers of one client
+   (same ClientID, same client_ip), the older one ends, then the session is established -> "no address" *)
+Theorem C18_end_clearing_by_address_refuted : exists (cap : nat) (hevs : list hevent),
+  conns_h_clear (new addr ANil cap) [] [] hevs <> run_conns cap (strip_ends hevs) /\
+  run_conns_h cap hevs = run_conns cap (strip_ends hevs).
+Proof.
+  exists 4, [HEv (Carrier 7 (Parsed [0;0;0;0;0;0;0;0;0;0;255;255;4;4;4;4]%N));
+             HEv (Carrier 7 (Parsed [0;0;0;0;0;0;0;0;0;0;255;255;4;4;4;4]%N)); HEnd 0; HEv (Accept 7)].
+  split; [vm_compute; discriminate | apply run_conns_h_strip].
+Qed.
+
 (* ALL connections of one session: run_conns lists every connection the listener hands out as
    (index of its session, RemoteAddr()) - one for each session start and one for each further stream
    a session opens later.  Whatever happens after the session was established (post: carriers of the
